@@ -65,6 +65,22 @@ def Frame.WF (f : Frame) : Prop :=
 
 instance (f : Frame) : Decidable f.WF := by unfold Frame.WF; exact inferInstance
 
+/-! ### TargetReady payload (`tunnelID|targetNodeID`) -/
+
+def bar : Byte := 0x7c   -- '|'
+
+/-- `EncodeTargetReadyMessage` -/
+def encodeTargetReady (tid node : Bytes) : Bytes := tid ++ bar :: node
+
+/-- `DecodeTargetReadyMessage`: split at the LAST '|' (tunnel ids are chosen by clients and may contain
+'|', node ids never do); `none` = "invalid target ready message format". -/
+def decodeTargetReady : Bytes → Option (Bytes × Bytes)
+  | [] => none
+  | b :: bs =>
+    match decodeTargetReady bs with
+    | some (t, n) => some (b :: t, n)
+    | none => if b == bar then some ([], bs) else none
+
 /-! ### ReadFrameFromReader -/
 
 /-- How `ReadFrameFromReader` fails. -/
@@ -310,6 +326,12 @@ def runWriter : FS → List Ev → List WRes × FS
     | none => runWriter st evs
     | some w => runWriter { st with out := st.out ++ w } evs
 
+/-- An upper bound on the number of frames a sequence of sender events puts on the connection. -/
+def frameBound : List Ev → Nat
+  | [] => 0
+  | .write p :: evs => p.length / crossnode.MaxFrameSize + 1 + frameBound evs
+  | _ :: evs => 1 + frameBound evs
+
 /-- Everything both ends observe. -/
 structure StObs where
   writes : List WRes
@@ -329,6 +351,58 @@ def runStream (trk : Tracker) (me : Bytes) (evs : List Ev) (cut : Bytes → List
   let r0 : FS := { FS.init (tunnelIDFromString me) ⟨cut wire, tail⟩ with writeEOF := rw }
   let rr := readLoop trk (wire.length + 1) r0 ps
   ⟨w.1, rr.1, rr.2.broken, w.2.broken⟩
+
+/-- `runStream` on a connection that is cut after `k` bytes of the wire (then ends with `tail`): the
+fault "the connection is lost at an arbitrary offset", mid-header and mid-payload included. -/
+def runStreamCut (trk : Tracker) (me : Bytes) (evs : List Ev) (cut : Bytes → List Bytes) (tail : Tail) (rw : Bool)
+    (ps : List Nat) (k : Nat) : StObs :=
+  let w := runWriter (FS.init (tunnelIDFromString me) ⟨[], .eof⟩) evs
+  let wire := w.2.out.take k
+  let r0 : FS := { FS.init (tunnelIDFromString me) ⟨cut wire, tail⟩ with writeEOF := rw }
+  let rr := readLoop trk (wire.length + 1) r0 ps
+  ⟨w.1, rr.1, rr.2.broken, w.2.broken⟩
+
+/-! ### The listener's TargetReady path -/
+
+/-- `CrossNodeListener.handleConnection` → `handleTargetReady` → the raw forwarding of `runBridgeForward`,
+on the inbound bytes of an accepted connection; `bridge` = the tunnel the manager has a bridge for.
+`some bytes`: everything after the first frame is forwarded raw to the bridge's source side;
+`none`: nothing is forwarded (read error, other frame type, malformed message, unknown bridge). -/
+def runListener (bridge : Bytes) (s : Src) : Option Bytes :=
+  match (readFrame s).out with
+  | .fail _ => none
+  | .frame f =>
+    if f.ty == crossnode.FrameTypeTargetReady then
+      match decodeTargetReady f.data with
+      | none => none
+      | some m =>
+        -- tunnelIDStr := TunnelIDToString(tunnelID); if fullTunnelID != "" { tunnelIDStr = fullTunnelID }
+        if (if m.1.isEmpty then tunnelIDToString f.id else m.1) == bridge then some (readFrame s).rest.flat
+        else none
+    else none
+
+/-! ### Both directions of one connection (request / response) -/
+
+/-- Forward phase as in `runStream`, then the reverse phase on the SAME two stream objects. -/
+structure DxObs where
+  fwd : StObs
+  rev : StObs      -- writes: B's `Write` answers; reads: A's `Read` results; rbroken: A; wbroken: B
+deriving DecidableEq, Repr
+
+/-- A (tunnel `me`) runs the sender events `evs`; B (tracker `trk`; if `rw` it half-closes first, which
+puts an EOF frame on the way back to A) reads with `ps`; then B runs `rvEvs` on its stream (and the raw
+connection), the connection's B→A direction ends, and A reads with `rps`. -/
+def runDuplex (trk : Tracker) (me : Bytes) (evs : List Ev) (cut : Bytes → List Bytes) (tail : Tail) (rw : Bool)
+    (ps : List Nat) (rvEvs : List Ev) (rps : List Nat) : DxObs :=
+  let id := tunnelIDFromString me
+  let a := runWriter (FS.init id ⟨[], .eof⟩) evs
+  let b0 := FS.init id ⟨cut a.2.out, tail⟩
+  let b1 := if rw then b0.closeWrite else b0
+  let br := readLoop trk (a.2.out.length + 1) b1 ps
+  let bw := runWriter br.2 rvEvs
+  let a1 : FS := { a.2 with conn := ⟨cut bw.2.out, .eof⟩ }
+  let ar := readLoop none (bw.2.out.length + 1) a1 rps
+  ⟨⟨a.1, br.1, br.2.broken, a.2.broken⟩, ⟨bw.1, ar.1, ar.2.broken, bw.2.broken⟩⟩
 
 /-! ### A stream on a pooled connection (`NodeConnectionPool.Get` after `Release`) -/
 
